@@ -99,7 +99,7 @@ def deep_observation(c: Converter, curie_probes: list[str], uri_probes: list[str
 
 
 
-def mk_incremental_queried(spec: dict, order, queries) -> Converter:
+def mk_incremental_queried(spec: dict, order, queries, case_sensitive: bool = True) -> Converter:
     """Build the converter of ``spec`` incrementally, calling ``queries(converter)`` after every single mutation.
 
     Records are added in ``order``; a record with synonyms is added as its bare canonical pair first and then completed by
@@ -115,10 +115,10 @@ def mk_incremental_queried(spec: dict, order, queries) -> Converter:
         c.add_record(mk_bare_record(r["prefix"], r["uri_prefix"], r.get("pattern")))
         queries(c)
         for syn in r["prefix_synonyms"]:
-            c.add_prefix(syn, r["uri_prefix"], merge=True)
+            c.add_prefix(syn, r["uri_prefix"], merge=True, case_sensitive=case_sensitive)
             queries(c)
         for syn in r["uri_prefix_synonyms"]:
-            c.add_record(mk_bare_record(r["prefix"], syn), merge=True)
+            c.add_record(mk_bare_record(r["prefix"], syn), merge=True, case_sensitive=case_sensitive)
             queries(c)
     return c
 
@@ -203,3 +203,15 @@ def mk_split_merge(spec: dict) -> Converter:
     for r2 in seconds:
         c.add_record(r2, merge=True)
     return c
+
+
+def case_insensitive_build_is_equivalent(spec: dict) -> bool:
+    """True if no two strings of DIFFERENT records are equal up to case (on the same side): then growing the converter with
+    case_sensitive=False merges must denote exactly the same records as the case-sensitive build."""
+    for side in ("prefix", "uri_prefix"):
+        seen = {}
+        for i, r in enumerate(spec["records"]):
+            for x in [r[side], *r[side + "_synonyms"]]:
+                if seen.setdefault(x.casefold(), i) != i:
+                    return False
+    return True
